@@ -41,6 +41,7 @@ EXPLANATION = (
 NONTRIVIAL_RULE = "processed at least two events, one of them sent from inside an action or by a second producer"
 BOUNDS = {
     "reentrant": "machine RM; 6 symbolic send-position bits (entry during start, exit, two transition-action positions, choose branch, always action); external script = one event + a send_events batch of n in [0,4] + one event; maxIterations default; both engines",
+    "volume": "machine VM (TICK -> count + r raised events); n in {3, 40, 1100, 2100} external events, r in {0,1,2}, event submitted as str / one dict object re-used / fresh dicts / one Event object re-used; one by one or send_events (sync) / two interleaved producers (async); every accepted event processed exactly once, no deadlock (virtual-time 30 s guard), payload intact, caller's dict untouched. Runs natively on the solver-chosen magnitudes (loops of thousands of sends are not traced)",
     "producers": "machine RM; two producers with two events each at symbolic instants in [0,30] ms, after-timer d in [1,30] ms, slow action a in [0,20] ms; both engines (sync: producers are the caller at two instants, timers run on virtual threads)",
 }
 ASSUMPTIONS = [
@@ -368,7 +369,119 @@ def producers(eng: int, t1: int, t2: int, d: int, a: int, slow_first: bool) -> b
     return verdict(why is None, nontrivial=True)
 
 
-OBLIGATIONS = {"reentrant": reentrant, "producers": producers}
+# ---------------------------------------------------------------------------
+# volume: no amount of external sends loses an event; an event object may be submitted more than once
+# ---------------------------------------------------------------------------
+
+MAGS = [3, 40, 1100, 2100]
+FORMS = ["str", "same dict", "fresh dict", "same Event object"]
+_VM: Dict[int, Any] = {}
+
+
+def _vm(raises: int) -> Any:
+    m = _VM.get(raises)
+    if m is None:
+        from xstate_statemachine import actions as A, create_machine
+
+        env.install()
+
+        def cnt(i: Any, c: Any, e: Any, a: Any) -> None:
+            c["ticks"] += 1
+            c["last"] = e.payload.get("k", c["last"]) if hasattr(e, "payload") else c["last"]
+
+        def cnt_r(i: Any, c: Any, e: Any, a: Any) -> None:
+            c["raised"] += 1
+
+        cfg = {"id": "vm", "initial": "I", "context": {"ticks": 0, "raised": 0, "last": None},
+               "states": {"I": {"on": {"TICK": {"actions": ["cnt"] + [A.raise_("R")] * raises}, "R": {"actions": ["cntR"]}}}}}
+        m = create_machine(cfg, logic=make_logic(actions={"cnt": cnt, "cntR": cnt_r}))
+        env.pin_hashes(m)
+        _VM[raises] = m
+    return m
+
+
+def volume(eng: int, mag: int, raises: int, form: int, batch: bool) -> bool:
+    """
+    pre: 0 <= eng <= 1
+    pre: gate('volume', eng=eng, mag=mag, raises=raises, form=form, batch=batch)
+    post: _
+    """
+    if "eng" in P and eng != P["eng"]:
+        return verdict(True, nontrivial=False)
+    eng = pick(eng, 2)
+    n = MAGS[pick(mag, len(MAGS))]
+    r = pick(raises, 3)
+    f = pick(form, len(FORMS))
+    b = bool(batch)
+
+    def run() -> Optional[str]:
+        from xstate_statemachine import Interpreter, SyncInterpreter
+        from xstate_statemachine.events import Event
+
+        m = _vm(r)
+        shared_dict = {"type": "TICK", "k": 7}
+        shared_event = Event("TICK", {"k": 7})
+
+        def ev() -> Any:
+            return ["TICK", shared_dict, {"type": "TICK", "k": 7}, shared_event][f]
+
+        if eng == 0:
+            vthread.SCHED.reset(0.0)
+            it = SyncInterpreter(m)
+            it.start()
+            if b:
+                it.send_events([ev() for _ in range(n)])
+            else:
+                for _ in range(n):
+                    it.send(ev())
+            ctx = dict(it.context)
+            it.stop()
+        else:
+            import asyncio
+
+            it2 = Interpreter(m)
+            box: Dict[str, Any] = {}
+
+            async def produce(k: int) -> None:
+                for _ in range(k):
+                    await it2.send(ev())
+
+            async def go() -> None:
+                await it2.start()
+                try:
+                    if b:      # two producers interleaved by the event loop
+                        await asyncio.wait_for(asyncio.gather(produce(n // 2), produce(n - n // 2)), timeout=30.0)
+                    else:
+                        await asyncio.wait_for(produce(n), timeout=30.0)
+                    await asyncio.wait_for(it2._event_queue.join(), timeout=30.0)
+                except asyncio.TimeoutError:
+                    box["dead"] = f"deadlock: producers / queue did not finish (queue size {it2._event_queue.qsize()}, processed {it2.context['ticks']} of {n})"
+                box["ctx"] = dict(it2.context)
+                await it2.stop()
+
+            lp = vloop.VLoop()
+            vloop.run(go(), lp)
+            lp.close()
+            if "dead" in box:
+                return box["dead"]
+            ctx = box["ctx"]
+        if ctx["ticks"] != n:
+            return f"{n} TICK events were accepted, {ctx['ticks']} were processed as TICK"
+        if ctx["raised"] != n * r:
+            return f"{n * r} raised events expected, {ctx['raised']} processed"
+        if f in (1, 2, 3) and ctx["last"] != 7:
+            return f"payload of the submitted event lost: last k = {ctx['last']!r}"
+        if f == 1 and shared_dict != {"type": "TICK", "k": 7}:
+            return f"the caller's event dict was modified: {shared_dict!r}"
+        return None
+
+    why = common.native(run)
+    if why:
+        _note(f"{'sync' if eng == 0 else 'async'} n={n} raises-per-event={r} event form={FORMS[f]} {'batch/2 producers' if b else 'one by one'}: {why}")
+    return verdict(why is None)
+
+
+OBLIGATIONS = {"reentrant": reentrant, "producers": producers, "volume": volume}
 PROBES = {"reentrant": [{"b0": True, "b2": True, "n": 3}, {"eng": 1, "b1": True, "b3": True, "b5": True, "n": 2}],
           "producers": [{"t1": 5, "t2": 5, "d": 5, "a": 10, "slow_first": True}, {"eng": 1, "t1": 3, "t2": 4, "d": 4, "a": 10, "slow_first": True}]}
 
@@ -383,4 +496,5 @@ def items(tier: str, seed: int) -> List[Dict[str, Any]]:
         for sf in (False, True):
             out.append({"ob": "producers", "params": {"eng": eng, "slow_first": sf}, "timeout": 400 if quick else 1500, "path_timeout": 40,
                         "label": f"producers[{e},slow_first={sf}]"})
+        out.append({"ob": "volume", "params": {"eng": eng}, "timeout": 600, "label": f"volume[{e}]"})
     return out
